@@ -27,7 +27,7 @@ pub fn info() -> PropertyInfo {
     PropertyInfo {
         id: "C16",
         level: "exploration",
-        rule: "case = generated 1-3 file project (types, functions, function blocks with methods, namespaces whose blocks are spread over the files, standard function calls, CONFIGURATION with VAR_GLOBAL, programs with VAR_EXTERNAL; overlapping name pools; error-free by a fresh Database and compilable by TestHarness::from_sources, else discarded and counted) + identifier token chosen uniformly over all identifier tokens of the project (in ~13 % of the cases uniformly over the tokens of namespace members instead) + new name from {fresh, outer-scope, inner-scope, global, other existing, case variant, keyword, invalid, standard function, name used in a file that has no occurrence of the symbol} + 3-5 cycle input trace on %IW0/%IW2/%IX4.0; non-trivial = the project was error-free AND (the symbol has >= 2 occurrences, or occurrences in >= 2 files, or the new name already exists in the project); distinct by SHA-256 of sources + position + new name",
+        rule: "case = generated 1-3 file project (types, functions, function blocks with methods, namespaces whose blocks are spread over the files, standard function calls, CONFIGURATION with VAR_GLOBAL, programs with VAR_EXTERNAL; overlapping name pools; about a third of the projects are TEMPLATE CLONES: files 1.. start with a copy of the library region of file 0 in which only the top-level names are replaced by equal-length names, so every nested declaration and use sits at the same byte offset in all files, optionally with one padding comment that shifts the offsets behind it, with shared functions called at identical ranges from all copies and 0-40 dummy declarations at the end of each file; error-free by a fresh Database and compilable by TestHarness::from_sources, else discarded and counted) + identifier token chosen uniformly over all identifier tokens of the project (in ~9 % of the cases uniformly over the tokens of namespace members, in ~23 % - clone projects - over the tokens of nested symbols and of symbols with occurrences at one range in two files) + new name from {fresh, outer-scope, inner-scope, global, other existing, case variant, keyword, invalid, standard function, name used in a file that has no occurrence of the symbol} + 3-5 cycle input trace on %IW0/%IW2/%IX4.0; non-trivial = the project was error-free AND (the symbol has >= 2 occurrences, or occurrences in >= 2 files, or the new name already exists in the project); distinct by SHA-256 of sources + position + new name",
         assumptions: &[
             "behaviour = the complete variable storage (globals, program and FB instances, structs, enums) after initialisation and after every cycle of a 3-5 cycle trace, plus the cycle errors; function/method locals are observed only through the values they flow into",
             "behaviour is not compared (diagnostics, compilability and rename-back still are) for projects whose references deliberately differ in case from the declaration, for case-only renames, and when the error-free original already faults with Undefined* at run time: open runtime findings (F4 family, recorded for C01) make the runtime's name lookup depend on spelling",
@@ -101,6 +101,18 @@ pub struct Case {
     /// the position was drawn among the tokens of namespace members only
     #[serde(default)]
     pub position_biased: bool,
+    /// template-clone project / position drawn among nested symbols / padding / dummies
+    #[serde(default)]
+    pub clone_mode: bool,
+    #[serde(default)]
+    pub position_nested: bool,
+    #[serde(default)]
+    pub clone_padded: bool,
+    #[serde(default)]
+    pub dummy_decls: usize,
+    /// the symbol has occurrences at one and the same byte range in two files
+    #[serde(default)]
+    pub same_range_two_files: bool,
 }
 
 /// Identifier tokens that stand inside a NAMESPACE ... END_NAMESPACE block of `text`.
@@ -164,14 +176,63 @@ pub fn case_from_tape(tape: &Tape) -> Case {
         .map(|o| (o.file, o.start, o.end))
         .collect();
     let biased = sel_mode >= 0xC000_0000 && !ns_member_toks.is_empty();
-    let (file, s, e) = if biased {
+    // template-clone projects: in more than half of the cases the position is drawn among
+    // the tokens of nested symbols (members, methods, their parameters and locals, function
+    // parameters and locals, struct fields, enum values) - the symbols whose declarations
+    // sit at the same offsets in several files
+    const NESTED: &[&str] = &[
+        "method", "method_input", "method_local", "func_input", "func_local", "fb_input", "fb_output", "fb_var",
+        "field", "enum_value",
+    ];
+    let nested_toks: Vec<(usize, usize, usize)> = if p.clone_mode {
+        // ... plus the symbols that have occurrences at one and the same range in two files
+        // (shared functions called from the cloned bodies)
+        let same_range_syms: Vec<usize> = p
+            .occs
+            .iter()
+            .filter(|o| {
+                p.occs.iter().any(|q| q.sym == o.sym && q.file != o.file && q.start == o.start && q.end == o.end)
+            })
+            .map(|o| o.sym)
+            .collect();
+        // a quarter of the clone cases draw among those symbols only
+        let same_range_toks: Vec<(usize, usize, usize)> = p
+            .occs
+            .iter()
+            .filter(|o| same_range_syms.contains(&o.sym))
+            .map(|o| (o.file, o.start, o.end))
+            .collect();
+        if sel_mode >= 0xB000_0000 && !same_range_toks.is_empty() {
+            same_range_toks
+        } else {
+            p.occs
+                .iter()
+                .filter(|o| NESTED.contains(&p.syms[o.sym].kind.as_str()) || same_range_syms.contains(&o.sym))
+                .map(|o| (o.file, o.start, o.end))
+                .collect()
+        }
+    } else {
+        Vec::new()
+    };
+
+    let nested_biased = p.clone_mode && sel_mode >= 0x5000_0000 && !nested_toks.is_empty();
+    let (file, s, e) = if nested_biased {
+        nested_toks[pick_w(sel_tok, nested_toks.len())]
+    } else if biased {
         ns_member_toks[pick_w(sel_tok, ns_member_toks.len())]
     } else {
         toks[pick_w(sel_tok, toks.len())]
     };
+    let biased = biased && !nested_biased;
     let old_name = p.files[file].get(s..e).unwrap_or("").to_string();
     let inner = if e > s { pick_w(sel_inner, e - s) } else { 0 };
     let occ = p.occs.iter().find(|o| o.file == file && o.start == s && o.end == e);
+    let same_range_two_files = occ.is_some_and(|o| {
+        p.occs.iter().any(|a| {
+            a.sym == o.sym
+                && p.occs.iter().any(|q| q.sym == a.sym && q.file != a.file && q.start == a.start && q.end == a.end)
+        })
+    });
     let (kind, role, decl_name, scope, sym) = match occ {
         Some(o) => (
             p.syms[o.sym].kind.clone(),
@@ -350,6 +411,11 @@ pub fn case_from_tape(tape: &Tape) -> Case {
         new_name_used_in_other_file,
         ns_reopened_use,
         position_biased: biased,
+        clone_mode: p.clone_mode,
+        position_nested: nested_biased,
+        clone_padded: p.clone_padded,
+        dummy_decls: p.dummy_decls,
+        same_range_two_files,
         in_namespace,
         ns_reopened_elsewhere: in_namespace
             && p.files.iter().enumerate().any(|(fi, f)| {
@@ -475,7 +541,26 @@ pub fn check_case(c: &Case, probe: &mut Probe, open: &dyn Fn(&str) -> bool) -> R
     if c.ns_functions {
         probe.label("project_has_namespaced_function");
     }
-    probe.label(if c.position_biased { "position=uniform_over_namespace_member_tokens" } else { "position=uniform_over_all_tokens" });
+    probe.label(if c.position_nested {
+        "position=uniform_over_nested_symbol_tokens_of_clone_project"
+    } else if c.position_biased {
+        "position=uniform_over_namespace_member_tokens"
+    } else {
+        "position=uniform_over_all_tokens"
+    });
+    if c.clone_mode {
+        probe.label("project=template_clones");
+        probe.label(format!("template_clones:files={}", c.files.len()));
+        if c.clone_padded {
+            probe.label("template_clones:padding_shifts_some_offsets");
+        }
+    }
+    if c.same_range_two_files {
+        probe.label("symbol_has_occurrences_at_the_same_range_in_two_files");
+    }
+    if c.dummy_decls > 0 {
+        probe.label(format!("dummy_declarations={}", match c.dummy_decls { 1..=20 => "1-20", 21..=50 => "21-50", _ => ">50" }));
+    }
     if c.in_namespace {
         probe.label("symbol_declared_in_namespace");
     }
@@ -735,6 +820,11 @@ fn mkcase_cmd(args: &[String]) -> i32 {
         in_namespace: false,
         ns_reopened_elsewhere: false,
         position_biased: false,
+        clone_mode: false,
+        position_nested: false,
+        clone_padded: false,
+        dummy_decls: 0,
+        same_range_two_files: false,
     };
     println!("{}", serde_json::to_string_pretty(&c).unwrap());
     0
